@@ -100,6 +100,27 @@ add('C10', 'model_checking', 'exhaustive enumeration of saved sets x queries on 
     'recordings, and a read-only S3 view: no duplicates, subset of the reference, exact size, every id fetchable.',
     'limit=0 excluded; listing order not demanded; crash in the middle of a file save is outside the quantifier.')
 
+add('C15', 'model_checking', 'exhaustive call histories on real S3 cassettes over a fake bucket with mutation log + crash-point enumeration after every bucket mutation of every save',
+    'Cassette A in all 16 combinations of read_only x transient x key prefix (none, a, ab, a/b) plus a writable neighbour cassette B share one bucket '
+    'pre-loaded with recordings of all prefixes and foreign objects; every history up to depth 3/4 over 10 calls (calls that raise are continued past): '
+    'a read-only cassette never mutates and refuses create/save, every mutated key lies under the cassette\'s own full/ or metadata/ root, closing a '
+    'transient writable cassette removes all its own keys and leaves every other object byte-identical, and after EVERY individual bucket mutation of '
+    'EVERY save every id any prefix view can list is completely fetchable (recording and metadata).',
+    'Fake bucket: strongly consistent, atomic single-object put/delete, lexicographic listing; boto3 itself not exercised; python -O not considered.')
+add('C16', 'exploration', 'exhaustive grid of (start, end | now) windows x recordings at day boundaries on the real S3 cassette with harness clock',
+    'All windows with start <= end on a 30-minute grid over three days (thorough: plus 1-minute grid around each midnight), start > end, and end '
+    'defaulting to now, over 16 recordings placed at 00:00 / 00:30 / 12:00 / 23:30 / 23:59 / 00:01 of each day in two categories, written by one '
+    'cassette that stays open across midnights with ids whose key order is not chronological; with and without metadata filter and limit: result == '
+    'exactly the recordings inside the window.',
+    'Process clock in UTC; created and saved at the same instant; fake bucket stamps last_modified from the harness clock.')
+add('C20', 'exploration', 'exhaustive product of contents x limits x handlers x styles x path passing x cassettes, each a full record/save/fetch/replay trip on the real handlers',
+    'Every content (empty, NUL, binary, CRLF text, the placeholder text, 1 KiB, exactly limit-1 / limit / limit+1 bytes) x limit (explicit 16 B, 1 KiB, '
+    '1 MB, 0; environment 1, 1.0, 2; default) x input/output handler x instance/static x positional/keyword path x memory/file/S3(fake): the file restored '
+    'at the path named by the REPLAYED call (different from the recorded one) and the output holder content are byte-identical or the placeholder, files '
+    'above the limit are never opened while recording (open() journalled), bodies do not run in replay; plus same path intercepted twice with same-size '
+    'same-mtime rewritten content.',
+    'Whole-MB or exact binary-fraction limits only; concurrent use of one handler from several threads is outside the quantifier.')
+
 NOT_YET = {}
 
 
